@@ -135,6 +135,12 @@ func (c *client) SendRPC(rpc hrpc.Call) (msg proto.Message, err error) {
 func (c *client) getRegionAndClientForRPC(ctx context.Context, rpc hrpc.Call) (
 	hrpc.RegionClient, error) {
 	for {
+		select {
+		case <-c.done:
+			// the client has been closed: don't use (or establish) anything
+			return nil, ErrClientClosed
+		default:
+		}
 		reg, err := c.getRegionForRpc(ctx, rpc)
 		if err != nil {
 			return nil, err
@@ -940,6 +946,12 @@ func (c *client) establishRegion(reg hrpc.RegionInfo, addr string) {
 			reg.MarkAvailable()
 			return
 		}
+		select {
+		case <-c.done:
+			// client has been closed
+			return
+		default:
+		}
 		if addr == "" {
 			// need to look up region and address of the regionserver
 			originalReg := reg
@@ -1009,6 +1021,16 @@ func (c *client) establishRegion(reg hrpc.RegionInfo, addr string) {
 					c.effectiveUser, c.regionReadTimeout, c.compressionCodec,
 					c.regionDialer, c.logger)
 			})
+		}
+
+		select {
+		case <-c.done:
+			// The client was closed while we were looking up the region.
+			// Close() may already have gone through the clients cache, so
+			// nobody else would close a connection added to it just now.
+			client.Close()
+			return
+		default:
 		}
 
 		// connect to the region's regionserver.
